@@ -31,6 +31,9 @@ func RandomHistories(w *WorldJSON, seed int64, n, depth int, routers []string, f
 				cfg.Policy.Imp = []string{"", "", "u2"}[rng.Intn(3)]
 				cfg.Policy.Drop = []string{"", "email"}[rng.Intn(2)]
 			}
+			if focus == "logout" && rng.Intn(2) == 0 {
+				cfg.Dyn = true
+			}
 			if focus == "issue" {
 				cfg.Alg = []string{"ES256", "RS256", "ES384", "EdDSA", "ES512", "PS256", "RS384"}[rng.Intn(7)]
 				cfg.Policy.DefType = []string{"", "refresh", "access", "id"}[rng.Intn(4)]
@@ -53,6 +56,19 @@ func RandomHistories(w *WorldJSON, seed int64, n, depth int, routers []string, f
 			if focus == "exchange" || focus == "tokenuse" || focus == "refresh" || focus == "logout" || focus == "issue" || focus == "faults" {
 				for _, c := range [][]string{{"cw"}, {"cx"}, {"cw", "cx"}, {"cx", "cp"}, {"cj", "cw"}}[rng.Intn(5)] {
 					g.codeFlow(c, emit)
+				}
+			}
+			if (focus == "clientauth" || focus == "device") && i%25 == 0 {
+				// scripted table inside a history: every device client polls an approved code of its own with every kind of credential
+				for _, c := range []string{"cx", "cp", "cd", "cn"} {
+					for _, cr := range []M{{"kind": "none", "secret": "none", "key": "none"}, {"kind": "basic", "secret": "right", "key": "none"},
+						{"kind": "post", "secret": "right", "key": "none"}, {"kind": "basic", "secret": "wrong", "key": "none"}} {
+						out := emit("DeviceAuthorize", M{"caller": c, "cred": g.rightCred(c), "scopes": []string{"openid"}})
+						if dc := S(out, "dc"); dc != "none" && dc != "" {
+							emit("Approve", M{"dc": dc, "user": "u1"})
+							emit("Poll", M{"caller": c, "cred": cr, "dc": dc, "slow": false})
+						}
+					}
 				}
 			}
 			for s := 0; s < depth; s++ {
@@ -88,9 +104,9 @@ func (g *gen) codeFlow(c string, emit func(string, M) M) {
 
 type gen struct {
 	focus string
-	rng *rand.Rand
-	d   *Driver
-	w   *WorldJSON
+	rng   *rand.Rand
+	d     *Driver
+	w     *WorldJSON
 }
 
 func (g *gen) pick(xs ...string) string { return xs[g.rng.Intn(len(xs))] }
@@ -206,12 +222,12 @@ var focusWeights = map[string]map[string]int{
 	"issue": {"Authorize": 4, "Login": 4, "Callback": 6, "CodeExchange": 8, "Refresh": 5, "DeviceAuthorize": 2, "Approve": 2, "Poll": 4,
 		"ClientCreds": 2, "JWTBearer": 2, "TokenExchange": 5, "RotateKey": 1},
 	"authorize": {"Authorize": 10, "Login": 5, "Callback": 8, "CodeExchange": 2},
-	"code":     {"Authorize": 4, "Login": 4, "Callback": 5, "CodeExchange": 10, "Refresh": 1, "UserInfo": 1, "EndSession": 1},
-	"refresh":  {"Authorize": 3, "Login": 3, "Callback": 4, "CodeExchange": 5, "Refresh": 10, "Revoke": 1},
-	"tokenuse": {"Authorize": 3, "Login": 3, "Callback": 4, "CodeExchange": 5, "Refresh": 1, "UserInfo": 4, "Introspect": 5, "Revoke": 4, "Expire": 1, "EndSession": 2, "TokenExchange": 3},
-	"device":   {"DeviceAuthorize": 4, "Approve": 3, "Deny": 1, "ExpireDevice": 1, "Poll": 10, "UserInfo": 1},
-	"logout":   {"Authorize": 3, "Login": 3, "Callback": 4, "CodeExchange": 5, "EndSession": 8, "UserInfo": 1},
-	"exchange": {"Authorize": 3, "Login": 3, "Callback": 4, "CodeExchange": 6, "TokenExchange": 12, "Revoke": 1, "Expire": 1, "UserInfo": 1, "Introspect": 1},
+	"code":      {"Authorize": 4, "Login": 4, "Callback": 5, "CodeExchange": 10, "Refresh": 1, "UserInfo": 1, "EndSession": 1},
+	"refresh":   {"Authorize": 3, "Login": 3, "Callback": 4, "CodeExchange": 5, "Refresh": 10, "Revoke": 1},
+	"tokenuse":  {"Authorize": 3, "Login": 3, "Callback": 4, "CodeExchange": 5, "Refresh": 1, "UserInfo": 4, "Introspect": 5, "Revoke": 4, "Expire": 1, "EndSession": 2, "TokenExchange": 3},
+	"device":    {"DeviceAuthorize": 4, "Approve": 3, "Deny": 1, "ExpireDevice": 1, "Poll": 10, "UserInfo": 1},
+	"logout":    {"Authorize": 3, "Login": 3, "Callback": 4, "CodeExchange": 5, "EndSession": 8, "UserInfo": 1},
+	"exchange":  {"Authorize": 3, "Login": 3, "Callback": 4, "CodeExchange": 6, "TokenExchange": 12, "Revoke": 1, "Expire": 1, "UserInfo": 1, "Introspect": 1},
 	"clientauth": {"Authorize": 3, "Login": 3, "Callback": 4, "CodeExchange": 5, "Refresh": 3, "Introspect": 3, "Revoke": 3,
 		"DeviceAuthorize": 3, "Approve": 1, "Poll": 3, "ClientCreds": 4, "JWTBearer": 2, "TokenExchange": 4},
 	"all": {"ClientCreds": 1, "JWTBearer": 1, "TokenExchange": 3, "Authorize": 3, "Login": 3, "Callback": 4, "CodeExchange": 5, "Refresh": 3, "UserInfo": 2, "Introspect": 2, "Revoke": 2,
@@ -395,8 +411,11 @@ func (g *gen) next() (string, M) {
 		}
 		return op, M{"caller": c, "cred": cred, "subj": subj, "actor": actor,
 			"requested": g.pick("", "access", "access", "refresh", "id", "jwt", "unknown"),
-			"scopes": [][]string{{"openid"}, {"openid", "email"}, {"openid", "email", "profile"}}[g.rng.Intn(3)]}
+			"scopes":    [][]string{{"openid"}, {"openid", "email"}, {"openid", "email", "profile"}}[g.rng.Intn(3)]}
 	case "DeviceAuthorize":
+		if g.rng.Intn(4) == 0 {
+			return op, M{"caller": "cn", "cred": g.rightCred("cn"), "scopes": g.scopes()}
+		}
 		c := g.pick("cx", "cx", "cp", "cp", "cd", "cd", "cw", "cz")
 		cred := g.rightCred(c)
 		if c == "cx" && g.rng.Intn(2) == 0 {
@@ -418,16 +437,24 @@ func (g *gen) next() (string, M) {
 		if c == "cx" && g.rng.Intn(2) == 0 {
 			cred = M{"kind": "basic", "secret": "right", "key": "none"}
 		}
-		if g.rng.Intn(5) == 0 {
+		switch g.rng.Intn(8) {
+		case 0:
 			cred = g.cred(c)
+		case 1:
+			// a client registered with a credential that just names itself
+			cred = M{"kind": "none", "secret": "none", "key": "none"}
 		}
 		return op, M{"caller": c, "cred": cred, "dc": dc, "slow": g.rng.Intn(8) == 0}
 	default:
 		hint := M{"kind": "none", "id": "none"}
 		if len(d.idtRaw) > 0 && g.rng.Intn(4) != 0 {
-			hint = M{"kind": g.pick("valid", "valid", "expired", "wrongkey", "wrongiss", "algnone"), "id": g.existing(d.idtRaw, "i99")}
+			hint = M{"kind": g.pick("valid", "valid", "expired", "multiaud", "multiaud", "wrongkey", "wrongiss", "algnone"), "id": g.existing(d.idtRaw, "i99")}
 		}
-		return "EndSession", M{"hint": hint, "client": g.pick("", "", "cw", "cx", "cj"), "uri": g.pick("", "plcw", "plcx", "plcj", "evil"), "state": g.pick("", "ls1", "l s+2&=")}
+		host := "A"
+		if d.Cfg.Dyn && g.rng.Intn(3) == 0 {
+			host = "B"
+		}
+		return "EndSession", M{"hint": hint, "client": g.pick("", "", "cw", "cx", "cj"), "uri": g.pick("", "plcw", "plcx", "plcj", "evil"), "state": g.pick("", "ls1", "l s+2&="), "host": host}
 	}
 }
 
